@@ -74,6 +74,11 @@ def s2(name):
         return Catalogue("s2-wrappers", [Shape("M", [
             F("i", 1, "message", wraps="int32"), F("s", 2, "message", wraps="string"), F("b", 3, "message", wraps="bool"),
             F("u", 4, "message", wraps="uint64"), F("y", 5, "message", wraps="bytes"), F("d", 6, "message", wraps="double")])], E)  # fmt: skip
+    if name == "wrappers2":
+        # two wrappers of the same wrapped type next to each other (state shared between wrapper decodes would show here)
+        return Catalogue("s2-wrappers2", [Shape("M", [
+            F("a", 1, "message", wraps="int32"), F("b", 2, "message", wraps="int32"),
+            F("c", 3, "message", wraps="string"), F("d", 4, "message", wraps="string")])], E)  # fmt: skip
     if name == "packed":
         return Catalogue("s2-packed", [Shape("M", [
             F("a", 1, "sint32", "repeated"), F("f", 2, "fixed32", "repeated"), F("b", 3, "bool", "repeated"),
@@ -81,7 +86,7 @@ def s2(name):
     raise KeyError(name)
 
 
-S2_NAMES = ["mixed", "oneofs", "nested", "recursive", "mutual", "repmsg", "mapmsg", "optionals", "wrappers", "packed"]
+S2_NAMES = ["mixed", "oneofs", "nested", "recursive", "mutual", "repmsg", "mapmsg", "optionals", "wrappers", "wrappers2", "packed"]
 S1_KINDS = SCALARS + ["enum", "message"] + ["wrap:" + k for k in WRAPPER_OF]
 S1_MAP_VALUES = ["int32", "string", "bytes", "enum", "message", "double"]
 
